@@ -77,6 +77,12 @@ int main() {
       tN2kMsg M; fresh(M);
       std::vector<std::string> a(t.begin() + 2, t.end()); std::string o;
       if (call_fn(fid_of_name(t[1]), a, M, o)) res = "k" + t[1] + " " + show_msg(M); else res = "badcase";
+    } else if (t[0] == "B" && t.size() == 4) {
+      // N2kSetStatusBinaryOnStatus / N2kGetStatusOnBinaryStatus (bank status of PGN 127501): B <bank hex> <status 0..3> <item index>
+      tN2kBinaryStatus b = strtoull(t[1].c_str(), 0, 16);
+      N2kSetStatusBinaryOnStatus(b, (tN2kOnOff)atoi(t[2].c_str()), (uint8_t)atoi(t[3].c_str()));
+      char h[40]; snprintf(h, 40, "kB %016llx ", (unsigned long long)b); res = h;
+      for (int i = 0; i < 30; i++) res += (char)('0' + (int)N2kGetStatusOnBinaryStatus(b, (uint8_t)i));
     } else if (t[0] == "P" && t.size() >= 5) {
       tN2kMsg M; fresh(M);
       M.PGN = strtoul(t[2].c_str(), 0, 10); int dl = atoi(t[3].c_str());
